@@ -22,8 +22,9 @@ alignas(64) char _heap_start[ARENA + 64];
 extern char *__brkval;
 extern char *__malloc_heap_start;
 struct __freelist;
-extern struct __freelist *__flp;
-extern int __allocation_counter;
+// debugging internals of the heap: used when present, not required (a heap without them must still build and pass)
+extern struct __freelist *__flp __attribute__((weak));
+extern int __allocation_counter __attribute__((weak));
 
 namespace
 {
@@ -143,8 +144,8 @@ namespace
             int nc = (int)mod(p.c(0) - 2, 3) + 2;
             // a clean heap for every run (an aborted earlier run may have left anything behind)
             __brkval = nullptr;
-            __flp = nullptr;
-            __allocation_counter = 0;
+            if (&__flp) __flp = nullptr;
+            if (&__allocation_counter) __allocation_counter = 0;
             Shadow sh;
             sh.lo = __malloc_heap_start;
             sh.hi = _heap_start + ARENA;
@@ -261,8 +262,8 @@ namespace
             }
             if (__brkval != nullptr && __brkval != __malloc_heap_start)
                 violate("C10/heap-memory-lost", "after freeing every block the break is %td bytes above the heap start", __brkval - __malloc_heap_start);
-            if (__flp != nullptr) violate("C10/heap-memory-lost", "after freeing every block the free list is not empty");
-            if (__allocation_counter != 0) violate("C10/heap-allocation-counter", "allocation counter is %d after freeing every block", __allocation_counter);
+            if (&__flp && __flp != nullptr) violate("C10/heap-memory-lost", "after freeing every block the free list is not empty");
+            if (&__allocation_counter && __allocation_counter != 0) violate("C10/heap-allocation-counter", "allocation counter is %d after freeing every block", __allocation_counter);
             res.nontrivial = reused_gap;
             return res;
         }
